@@ -175,6 +175,59 @@ func detectRenames(w *World) (map[types.Object]string, []string) {
 	var notes []string
 	for _, p := range repoPackages(w) {
 		sc := p.Types.Scope()
+		// ---- struct types: a struct type with an unrecorded name and the fields of a recorded one whose name is gone
+		typeOld := map[string]string{} // current name -> recorded name
+		{
+			var missing []string
+			for k := range snap.Structs {
+				if strings.HasPrefix(k, p.PkgPath+".") && !strings.Contains(strings.TrimPrefix(k, p.PkgPath+"."), ".") {
+					n := strings.TrimPrefix(k, p.PkgPath+".")
+					if sc.Lookup(n) == nil {
+						missing = append(missing, n)
+					}
+				}
+			}
+			sort.Strings(missing)
+			for _, on := range missing {
+				want := snap.Structs[p.PkgPath+"."+on]
+				var cands []*types.TypeName
+				for _, n := range sc.Names() {
+					tn, ok := sc.Lookup(n).(*types.TypeName)
+					if !ok || tn.IsAlias() {
+						continue
+					}
+					if _, recorded := snap.Structs[p.PkgPath+"."+n]; recorded {
+						continue
+					}
+					st, ok := tn.Type().Underlying().(*types.Struct)
+					if !ok || st.NumFields() != len(want) {
+						continue
+					}
+					same := true
+					for i := 0; i < st.NumFields(); i++ {
+						ct := strings.ReplaceAll(types.TypeString(st.Field(i).Type(), qual), p.PkgPath+"."+n, p.PkgPath+"."+on)
+						if st.Field(i).Name() != want[i].Name || ct != want[i].Type {
+							same = false
+						}
+					}
+					if same {
+						cands = append(cands, tn)
+					}
+				}
+				if len(cands) == 1 && len(want) > 0 {
+					ren[cands[0]] = on
+					typeOld[cands[0].Name()] = on
+					notes = append(notes, fmt.Sprintf("type %s.%s is taken to be the recorded type %s renamed (same fields)", strings.TrimPrefix(p.PkgPath, modPath+"/"), cands[0].Name(), on))
+				}
+			}
+		}
+		oldRecv := func(f *types.Func) string {
+			r := recvTypeName(f)
+			if o, has := typeOld[r]; has {
+				return o
+			}
+			return r
+		}
 		// ---- struct fields
 		for _, n := range sc.Names() {
 			tn, ok := sc.Lookup(n).(*types.TypeName)
@@ -185,7 +238,11 @@ func detectRenames(w *World) (map[types.Object]string, []string) {
 			if !ok {
 				continue
 			}
-			old, has := snap.Structs[p.PkgPath+"."+n]
+			recName := n
+			if o, has := typeOld[n]; has {
+				recName = o
+			}
+			old, has := snap.Structs[p.PkgPath+"."+recName]
 			if !has {
 				continue
 			}
@@ -222,9 +279,9 @@ func detectRenames(w *World) (map[types.Object]string, []string) {
 		cur := map[string]*types.Func{}
 		byRecv := map[string][]*types.Func{}
 		for _, f := range declaredFuncs(w, p) {
-			k := recvTypeName(f) + "|" + f.Name()
+			k := oldRecv(f) + "|" + f.Name()
 			cur[k] = f
-			byRecv[recvTypeName(f)] = append(byRecv[recvTypeName(f)], f)
+			byRecv[oldRecv(f)] = append(byRecv[oldRecv(f)], f)
 		}
 		prefix := p.PkgPath + "|"
 		var missing []string
@@ -247,7 +304,7 @@ func detectRenames(w *World) (map[types.Object]string, []string) {
 				if _, recorded := snap.Funcs[prefix+recv+"|"+f.Name()]; recorded || taken[f] {
 					continue
 				}
-				if sigString(f.Type().(*types.Signature)) != want.Sig {
+				if normSig(sigString(f.Type().(*types.Signature)), p.PkgPath, typeOld) != want.Sig {
 					continue
 				}
 				fp, _ := w.fingerprint(f)
@@ -270,13 +327,13 @@ func detectRenames(w *World) (map[types.Object]string, []string) {
 			if o, isRen := ren[f]; isRen {
 				name = o
 			}
-			want, has := snap.Funcs[prefix+recvTypeName(f)+"|"+name]
+			want, has := snap.Funcs[prefix+oldRecv(f)+"|"+name]
 			_ = k
 			if !has {
 				continue
 			}
 			sig := f.Type().(*types.Signature)
-			if sig.Params().Len() != len(want.Params) || sigString(sig) != want.Sig {
+			if sig.Params().Len() != len(want.Params) || normSig(sigString(sig), p.PkgPath, typeOld) != want.Sig {
 				continue
 			}
 			for i := 0; i < sig.Params().Len(); i++ {
@@ -395,4 +452,13 @@ func loadWorldNormalized(repo string, overlay map[string][]byte, tags string) (*
 	}
 	w2.RenameNotes = notes
 	return w2, nil
+}
+
+// normSig rewrites the current names of renamed types in a signature string to
+// their recorded names.
+func normSig(sig, pkg string, typeOld map[string]string) string {
+	for cur, old := range typeOld {
+		sig = strings.ReplaceAll(sig, pkg+"."+cur, pkg+"."+old)
+	}
+	return sig
 }
